@@ -319,7 +319,9 @@ def single_fn_program(pid, fn, trait='Tr', opts='', macro='::entrait::entrait', 
         src += fn.harness(f'{pid}_h')
         hs.append(f'{pid}_h')
     # fn-pointer coercion witness (C03; rustc-decided)
-    return Program(pid, desc or f'fn {fn.deps} {[p.kind for p in fn.params]} async={fn.is_async} opts={opts}', src, hs, ['C01'])
+    modes = sorted({'mut': 'mut', 'atpat': '@'}[k] for k in (('mut' if p.kind == 'mut_u32' else p.kind) for p in fn.params) if k in ('mut', 'atpat'))
+    tag = ('binding-mode-kept:' + '+'.join(modes)) if modes else None
+    return Program(pid, desc or f'fn {fn.deps} {[p.kind for p in fn.params]} async={fn.is_async} opts={opts}', src, hs, ['C01'], tag=tag)
 
 
 def module_program(pid, fns, private_fns=(), trait='Tr', opts='', macro='::entrait::entrait', desc='', extra_items=''):
@@ -337,7 +339,10 @@ def module_program(pid, fns, private_fns=(), trait='Tr', opts='', macro='::entra
         h = f'{pid}_h_{f.name}'
         src += f.harness(h, fn_path='m::')
         hs.append(h)
-    return Program(pid, desc or f'mod of {[f.name for f in fns]} deps={[f.deps for f in fns]}', src, hs, ['C01'])
+    kinds = {('mut' if p.kind == 'mut_u32' else p.kind) for f in fns for p in f.params}
+    modes = sorted({'mut': 'mut', 'atpat': '@'}[k] for k in kinds if k in ('mut', 'atpat'))
+    tag = ('binding-mode-kept:' + '+'.join(modes)) if modes else None
+    return Program(pid, desc or f'mod of {[f.name for f in fns]} deps={[f.deps for f in fns]} params={[[p.kind for p in f.params] for f in fns][:1]}', src, hs, ['C01'], tag=tag)
 
 
 # --------------------------------------------------------------------------
